@@ -351,3 +351,14 @@ def check_ensemble(ck: Checker, rid: str):
             if t[0] == 'back' and (lo, hi) != (1, 1):
                 bad.append(f'{attr} receives {lo}..{hi} queues per member')
     ck.ob(rid, start, fl.ast.iter, not bad, '; '.join(bad) if bad else 'each member contributes exactly one input and one output queue, in member order')
+    # "every request gets exactly one answer" also needs the threads that carry the answers to survive and every
+    # dequeued request to have exactly one destination
+    from . import c09
+
+    with ck.as_rule('C02-8', 'the answer path stays alive and loses nothing: the gather thread cannot be killed by a concurrently cancelled future or an unknown id (C07-1, C07-2), every message it pops is followed by one admission signal (C06-4), and the batching collector gives every dequeued request exactly one destination (C09-3)', minimum=8):
+        for name in server.SERVERS:
+            s = server.discover(ck.repo, name)
+            server.check_race_free_resolution(ck, 'C07-1', s)
+            server.check_unknown_id_tolerated(ck, 'C07-2', s)
+            server.check_slot_return(ck, 'C06-4', s)
+        c09.check_one_destination(ck, 'C09-3')
